@@ -158,3 +158,60 @@ def nested(open_seq, inner=b'', close=True):
     if close:
         out += b''.join(reversed(closers))
     return out
+
+
+# ---------------------------------------------------------------- number literal families (L)
+I32_EDGES = [2147483647, 2147483648, 2147483646, 2147483640, 2147483600, 2147483000, 214748364, 214748365, 21474836470, 99999999999, 4294967296, 4294967295]
+
+def number_literals(rng, n_random=2000):
+    """number spellings that steer the parser into every path: short/long integer and fraction parts, exponent signs,
+    exponents at the i32 boundaries combined with mantissa exponents of either sign, overflow/underflow frontiers"""
+    out = []
+    ints = ['0', '1', '9', '10', '12345678901234567', '18446744073709551615', '18446744073709551616', '100000000000000000000',
+            '123456789012345678901234567890', '1' * 25, '9' * 40, '1' + '0' * 30]
+    fracs = ['', '.0', '.5', '.33', '.' + '0' * 20 + '1', '.' + '9' * 25, '.123456789012345678901234567890', '.' + '0' * 40]
+    for i in ints:
+        for f in fracs:
+            out.append(i + f)
+            for e in I32_EDGES:
+                for sg in ('', '+', '-'):
+                    out.append('%s%se%s%d' % (i, f, sg, e))
+            for e in (0, 1, 22, 23, 300, 308, 309, 310, 324, 325, 400, 1000, 5000):
+                for sg in ('', '-'):
+                    out.append('%s%sE%s%d' % (i, f, sg, e))
+    for z in ('0', '0.0', '0.000', '0e0'):
+        for e in I32_EDGES[:4]:
+            out.append('%se%d' % (z, e))
+            out.append('%se-%d' % (z, e))
+            out.append('-%se%d' % (z, e))
+    for e in range(-330, 331):
+        for m in ('1', '2.5', '123.456', '9007199254740993', '0.3'):
+            out.append('%se%d' % (m, e))
+    for _ in range(n_random):
+        m = str(rng.randrange(1, 10 ** rng.randrange(1, 41)))
+        if rng.random() < 0.5:
+            k = rng.randrange(0, len(m) + 1)
+            m = (m[:k] or '0') + '.' + (m[k:] or '0')
+        e = rng.choice([rng.randrange(-400, 401), rng.randrange(-30, 31), rng.choice(I32_EDGES) * rng.choice([1, -1])])
+        out.append('%s%s%s%d' % (m, rng.choice('eE'), rng.choice(['', '+']) if e >= 0 else '', e))
+    res = []
+    for s_ in out:
+        b = s_.encode()
+        res.append(b)
+        res.append(b'-' + b)
+    return res
+
+
+def depth_docs(rng):
+    """documents nested 126..129 deep over every bracket mix, closed / unclosed / with trailing bytes"""
+    docs = []
+    for total in (126, 127, 128, 129):
+        for pattern in ('[', '{', '[{', '{[', 'r', 'r'):
+            seq = ''.join(rng.choice('[{') for _ in range(total)) if pattern == 'r' else (pattern * total)[:total]
+            for inner in (b'1', b'', b'"x"', b' \n1'):
+                docs.append(nested(seq, inner))
+                docs.append(nested(seq, inner, close=False))
+            # the last bracket of each kind, followed by more input
+            docs.append(nested(seq[:-1] + '{', b'"a":1', close=False))
+            docs.append(nested(seq[:-1] + '[', b'1,2', close=False))
+    return docs
